@@ -21,6 +21,7 @@ PROFILE = {
     "max_delay_ticks": 32,
     "attempt_timeout": 0.1,
     "multi_call": (1, 2),
+    "offgrid_delays": 0.1,
 }
 NORETRY = ["Policy.noretry.execute", "AsyncPolicy.noretry.execute"]
 
